@@ -1,1 +1,4 @@
 // stub: this hook is not part of the shuttle build of the verification harness (see harness/shuttle/root.rs)
+
+// no-op counterpart of the C02 hook called by `Batch::push` (suite c02_recorded is not part of this build)
+pub fn c02_note_push(_gate: &crate::protocol::Gate) {}
